@@ -200,6 +200,47 @@ Proof.
     [rewrite run_ev_Line|rewrite run_ev_Pred|rewrite run_ev_Track]; rewrite E; reflexivity.
 Qed.
 
+(* ---- 3b. threads: what other threads do (e.g. one abandoned inside a bracket after a timeout, or
+   leaving it later) never changes the switch or the records of the thread running a test case --- *)
+Lemma run_in_other : forall fin t t' evs T, t' <> t -> run_in fin t evs T t' = T t'.
+Proof.
+  intros fin t t' evs T H. unfold run_in. destruct (Z.eqb t' t) eqn:E; [|reflexivity].
+  apply Z.eqb_eq in E. contradiction.
+Qed.
+
+Lemma run_in_self : forall fin t evs T, run_in fin t evs T t = run fin evs (T t).
+Proof. intros. unfold run_in. rewrite Z.eqb_refl. reflexivity. Qed.
+
+(* the state of thread t after a schedule is the result of running t's own events, in order *)
+Fixpoint own (t : Z) (sched : list (Z * list ev)) : list ev :=
+  match sched with
+  | [] => []
+  | (t', evs) :: r => if Z.eqb t t' then evs ++ own t r else own t r
+  end.
+
+Lemma run_schedule_thread : forall fin sched T t,
+  run_schedule fin sched T t = run fin (own t sched) (T t).
+Proof.
+  intros fin sched; induction sched as [|[t' evs] r IH]; intros T t; [reflexivity|].
+  unfold run_schedule in *. cbn [fold_left fst snd own]. rewrite IH.
+  destruct (Z.eqb t t') eqn:E.
+  - apply Z.eqb_eq in E. subst t'. rewrite run_in_self, run_app. reflexivity.
+  - rewrite run_in_other; [reflexivity|]. intro H. subst t'. rewrite Z.eqb_refl in E. discriminate.
+Qed.
+
+Lemma schedule_enabled : forall sched T t,
+  enabled (run_schedule true sched T t) = enabled (T t).
+Proof. intros. rewrite run_schedule_thread. apply run_enabled. Qed.
+
+(* a test case executed in a fresh thread records its lines whatever the other threads do *)
+Lemma fresh_thread_records : forall sched T t pre id post,
+  T t = st_fresh -> own t sched = pre ++ Line id :: post ->
+  In id (lines (run_schedule true sched T t)).
+Proof.
+  intros sched T t pre id post HT Ho. rewrite run_schedule_thread, Ho, HT.
+  apply line_recorded_after. reflexivity.
+Qed.
+
 (* ---- 4. without `finally` the property fails: the unrepaired code ------------------------------- *)
 Definition st0 : state := {| enabled := true; lines := []; preds := []; instrs := [] |}.
 
